@@ -270,8 +270,12 @@ func c14(c *ev.Ctx) {
 		var gen func(d int) string
 		atom := func(d int) string {
 			switch k := r.Intn(14); {
-			case k < 5:
+			case k < 4:
 				return []string{"a", "b", "aa", "ab", "1", "o", "foo", "bar"}[r.Intn(8)]
+			case k == 4:
+				// punctuation that means something elsewhere in the language (as the first
+				// character of a literal it meets the lexer's division / regexp decision)
+				return []string{"=", "==", "-", ",", ":", "!", "<", ">", "&", ";", "#", "'", "~", "%", "@", "_", " ", "!=", "=~"}[r.Intn(19)]
 			case k == 5:
 				return "."
 			case k == 6:
@@ -315,7 +319,7 @@ func c14(c *ev.Ctx) {
 			return
 		}
 		lit := gast.EncodeRegex(pat, flags)
-		alphabet := []string{"a", "b", "A", "1", "o", "f", "r", " ", "foo", "bar", "ab"}
+		alphabet := []string{"a", "b", "A", "1", "o", "f", "r", " ", "foo", "bar", "ab", "=", "-", ",", ":", "!", "<", "&", ";", "#", "'", "~", "%", "@", "_"}
 		var parts, wants []string
 		for q := 0; q < 6; q++ {
 			var sb strings.Builder
